@@ -68,6 +68,7 @@ def domain(cfg):
 
 class C17(Base):
     ID = "C17"
+    TECHNIQUE = ('enumeration of the parameter box named by the property, each tuple constructed and executed on the simulator (reference machine guards), plus seeded excursions; no fault dimension')
     EXPECTED_PROBES = ('c17_invalid_tuples', 'c17_excluded_point')
     BATCH = 16
     NBOX = {"quick": 6, "thorough": 12}
